@@ -24,7 +24,9 @@ def run(ctx):
         run_scenario(ctx, "C02", exe, Q, "Q", stats, samples, model=True, nrandom=150, vias=("vec", "registry"), liveness=False)
         run_scenario(ctx, "C02", exe, A, "A", stats, samples, model=False, nrandom=300, vias=("direct",), hb=True, liveness=False)
         run_scenario(ctx, "C02", exe, QF, "QF", stats, samples, model=True, nrandom=100, vias=("direct",), liveness=False)
+        run_scenario(ctx, "C02", exe, dict(A, shift=1000), "Aneg", stats, samples, model=False, nrandom=150, vias=("direct",), liveness=False, check=False)
     else:
+        run_scenario(ctx, "C02", exe, dict(A, shift=1000), "Aneg", stats, samples, model=False, nrandom=3000, vias=("direct", "registry"), liveness=False, check=False)
         run_scenario(ctx, "C02", exe, QF, "QF", stats, samples, model=True, nrandom=2000, vias=("direct", "vec", "registry"), liveness=False)
         run_scenario(ctx, "C02", exe, Q, "Q", stats, samples, model=True, nrandom=2000, vias=("vec", "registry"), liveness=False)
         run_scenario(ctx, "C02", exe, A, "A", stats, samples, model=True, nrandom=5000, vias=("direct", "vec", "registry"), hb=True, liveness=False)
